@@ -76,8 +76,12 @@ type verifSentPHHandler struct {
 	id int64
 }
 
-func (f *verifSentPHHandler) OnAcked(wire.Frame) { f.v.cbs = append(f.v.cbs, VerifSentPHCb{f.id, true}) }
-func (f *verifSentPHHandler) OnLost(wire.Frame)  { f.v.cbs = append(f.v.cbs, VerifSentPHCb{f.id, false}) }
+func (f *verifSentPHHandler) OnAcked(wire.Frame) {
+	f.v.cbs = append(f.v.cbs, VerifSentPHCb{f.id, true})
+}
+func (f *verifSentPHHandler) OnLost(wire.Frame) {
+	f.v.cbs = append(f.v.cbs, VerifSentPHCb{f.id, false})
+}
 
 // verifSentPHCC is the recording fake congestion controller.
 type verifSentPHCC struct {
@@ -172,7 +176,9 @@ func (v *VerifSentPH) HandshakeUntouched() bool {
 }
 
 // AppProbesOutstanding: path probe packets are tracked in the application-data space.
-func (v *VerifSentPH) AppProbesOutstanding() bool { return len(v.h.appDataPackets.history.pathProbePackets) > 0 }
+func (v *VerifSentPH) AppProbesOutstanding() bool {
+	return len(v.h.appDataPackets.history.pathProbePackets) > 0
+}
 
 func (v *VerifSentPH) appGenState() (next, nextToSkip int64) {
 	g := v.h.appDataPackets.pns.(*skippingPacketNumberGenerator)
@@ -271,7 +277,9 @@ func (v *VerifSentPH) Migrate(now int64) {
 	v.h.MigratedPath(monotime.Time(now), 1200)
 	v.h.congestion = v.cc // MigratedPath installs a fresh cubic sender; keep recording
 }
-func (v *VerifSentPH) RecvBytes(n, now int64) { v.h.ReceivedBytes(protocol.ByteCount(n), monotime.Time(now)) }
+func (v *VerifSentPH) RecvBytes(n, now int64) {
+	v.h.ReceivedBytes(protocol.ByteCount(n), monotime.Time(now))
+}
 func (v *VerifSentPH) RecvPacket(l, now int64) { v.h.ReceivedPacket(v.lvl(l), monotime.Time(now)) }
 func (v *VerifSentPH) QueueProbe(l int64) bool { return v.h.QueueProbePacket(v.lvl(l)) }
 func (v *VerifSentPH) SendMode(now int64, canSend, hasBudget bool) int64 {
@@ -297,11 +305,11 @@ func (v *VerifSentPH) Drain() ([]VerifSentPHCb, []string) {
 
 // VerifSentPHObs: the per-op observables (state fields that are the property's subject).
 type VerifSentPHObs struct {
-	Bif                       int64
-	NumOut                    [3]int64 // -1 = space dropped
+	Bif                            int64
+	NumOut                         [3]int64 // -1 = space dropped
 	AlarmTime, AlarmType, AlarmLvl int64
 	PtoCount, NumProbes, PtoMode   int64
-	PCAV                      bool
+	PCAV                           bool
 }
 
 func (v *VerifSentPH) spaces() [3]*packetNumberSpace {
@@ -372,14 +380,14 @@ func (v *VerifSentPH) Dump() string {
 
 // VerifSentPHTracked describes one packet still tracked by the handler.
 type VerifSentPHTracked struct {
-	Space      int // 0 Initial, 1 Handshake, 2 AppData
-	PN         int64
-	Length     int64
-	Included   bool
-	AckElicit  bool
-	Outstand   bool
-	PathProbe  bool
-	FrameIDs   []int64 // ids of frames with a handler
+	Space     int // 0 Initial, 1 Handshake, 2 AppData
+	PN        int64
+	Length    int64
+	Included  bool
+	AckElicit bool
+	Outstand  bool
+	PathProbe bool
+	FrameIDs  []int64 // ids of frames with a handler
 }
 
 func verifSentPHFrameIDs(p *packet) []int64 {
@@ -432,6 +440,11 @@ func (v *VerifSentPH) LargestSent(l int64) int64 {
 	return int64(v.h.appDataPackets.largestSent)
 }
 
+// AppHighest: highest packet number the application-data history has seen (sent or skipped).
+func (v *VerifSentPH) AppHighest() int64 {
+	return int64(v.h.appDataPackets.history.highestPacketNumber)
+}
+
 func (v *VerifSentPH) HandshakeConfirmed() bool { return v.h.handshakeConfirmed }
 
 // AmplificationLimited recomputes the limit from the byte counters (not via isAmplificationLimited).
@@ -439,4 +452,6 @@ func (v *VerifSentPH) AmplificationLimited() bool {
 	return !v.h.peerAddressValidated && v.h.bytesSent >= 3*v.h.bytesReceived
 }
 func (v *VerifSentPH) AlarmTime() int64 { return int64(v.h.alarm.Time) }
-func (v *VerifSentPH) PeerCompletedAddressValidation() bool { return v.h.peerCompletedAddressValidation }
+func (v *VerifSentPH) PeerCompletedAddressValidation() bool {
+	return v.h.peerCompletedAddressValidation
+}
